@@ -318,6 +318,12 @@ class Matcher:
                             q = a
                             break
                 placed = items[q]
+            if placed is None and (rp.prog["cbs"].get(short) or {}).get("prop"):
+                # a guard given as a property is also READ (not called) when names are resolved - at
+                # construction, add_listener, copy: a pure read outside any event
+                self.stats["property_guard_reads_outside_events"] = \
+                    self.stats.get("property_guard_reads_outside_events", 0) + 1
+                continue
             if placed is None:
                 cur = items[min(p, len(items) - 1)] if items else None
                 self.add("seq.extra", n, cb=r["c"], group=r.get("g"), j=r["j"], level=level,
